@@ -147,6 +147,16 @@ func main() {
 	defer out.Flush()
 	for in.Scan() {
 		w := strings.Fields(in.Text())
+		if len(w) == 3 && w[0] == "ident" { // identity of the values handed along: see identCase
+			n, err1 := strconv.Atoi(w[1])
+			calls, err2 := strconv.Atoi(w[2])
+			if err1 != nil || err2 != nil || n < 2 || n > 20 || calls < 1 {
+				fmt.Fprintln(out, "bad-op")
+			} else {
+				fmt.Fprintln(out, identCase(n, calls))
+			}
+			continue
+		}
 		if len(w) > 0 && w[0] == "prog" { // several compositions in one process: prog.go
 			fmt.Fprintln(out, prog(w[1:]))
 			continue
@@ -202,4 +212,65 @@ func main() {
 		}
 		fmt.Fprintln(out, strings.Join(parts, " || "))
 	}
+}
+
+// Case kind `ident N calls`: the composed function hands on the VERY values the steps return, and does nothing else to
+// them. The argument is a slice with spare capacity; step 1 receives it (the harness notes the capacity it sees) and
+// returns a resource holding a pointer to the slice's second element; the steps in between return what they get; the
+// last step returns a holder of the resource. The resource has a Close method the harness never calls. Called `calls`
+// times with the same argument; one token per call:
+//
+//	same|diff   the pointer inside the result is / is not &arg[1]
+//	cap=<c>     the capacity step 1 saw
+//	open|closed whether somebody called Close on the resource
+type identRes struct {
+	p      *int
+	seen   int
+	closed bool
+}
+
+func (r *identRes) Close() error { r.closed = true; return nil }
+
+type identHolder struct{ r *identRes }
+
+func identCase(n, calls int) string {
+	res := &identRes{} // a long-lived handle: the same object is looked up by step 1 in every call
+	f := make([]func(any) any, n)
+	f[0] = func(v any) any {
+		xs := v.([]int)
+		res.p, res.seen = &xs[1], cap(xs)
+		return res
+	}
+	for i := 1; i < n-1; i++ {
+		f[i] = func(v any) any { return v }
+	}
+	f[n-1] = func(v any) any { return identHolder{r: v.(*identRes)} }
+	arg := make([]int, 3, 8)
+	g, ok := apply(n, arg, f)
+	if !ok {
+		return "panic"
+	}
+	parts := []string{}
+	for k := 0; k < calls; k++ {
+		r, ok := call(g, any(arg))
+		if !ok {
+			parts = append(parts, "panic")
+			continue
+		}
+		h, isH := r.(identHolder)
+		if !isH || h.r == nil {
+			parts = append(parts, "bad-result")
+			continue
+		}
+		t := "diff"
+		if h.r.p == &arg[1] {
+			t = "same"
+		}
+		st := "open"
+		if h.r.closed {
+			st = "closed"
+		}
+		parts = append(parts, fmt.Sprintf("%s cap=%d %s", t, h.r.seen, st))
+	}
+	return strings.Join(parts, " | ")
 }
